@@ -45,7 +45,9 @@ LEVEL_TEXT = {
            "budget; suspected divergences are confirmed on the real engine under a time limit.",
     "C06": "Kani/CBMC on the real unsafe code in the default (pointer-position, unchecked) build: every dereference, "
            "offset, slice construction and unreachable_unchecked reached is checked for all haystacks within the bound; "
-           "decoders are also compared with the UTF-8 definition.",
+           "decoders are also compared with the UTF-8 definition.  Whole-engine runs are explored natively on one "
+           "solver-produced witness per feasible path of the bytecode machine (every entry point must return valid "
+           "char-boundary ranges).",
     "C09": "Kani/CBMC on the real iterator and search loops of both executors over an ARBITRARY deterministic engine "
            "(symbolic result table), all haystacks <= 1 character, all start offsets (2-3 character harnesses exceed the machine, DESIGN 8.4); plus a "
            "solver-guided native exploration: on one witness per feasible path of the bytecode machine every real iterator "
